@@ -53,6 +53,10 @@ type PluginSpec struct {
 	// SharedCaps: the plugin builds its capability list once, in a slice with spare
 	// capacity, and returns that very slice from every call (no nonce is appended)
 	SharedCaps     bool             `json:"shared_caps,omitempty"`
+	// MutateShared (with SharedCaps): before every call after the first the plugin changes
+	// the values in its one slice in place (first octet of every non-empty value + 1); the
+	// "caps-" event carries a copy of what the call returned
+	MutateShared bool `json:"mutate_shared,omitempty"`
 	OpenNotif      *NotifSpec       `json:"open_notif,omitempty"`
 	NilHandler     bool             `json:"nil_handler,omitempty"`
 	HandlerNotifOn int              `json:"handler_notif_on,omitempty"` // 1-based handler call of a session; 0 = never
@@ -616,10 +620,22 @@ func (p *plugin) GetCapabilities(pc corebgp.PeerConfig) []corebgp.Capability {
 			for _, c := range p.ps.spec.Plugin.Caps {
 				p.ps.shared = append(p.ps.shared, corebgp.Capability{Code: c.Code, Value: append([]byte(nil), c.Value...)})
 			}
+		} else if p.ps.spec.Plugin.MutateShared {
+			for i := range p.ps.shared {
+				if len(p.ps.shared[i].Value) > 0 {
+					p.ps.shared[i].Value[0]++
+				}
+			}
 		}
 		out = p.ps.shared
+		var cp []wire.Cap
+		if p.ps.spec.Plugin.MutateShared {
+			for _, c := range out {
+				cp = append(cp, wire.Cap{Code: c.Code, Value: append([]byte(nil), c.Value...)})
+			}
+		}
 		p.ps.mu.Unlock()
-		p.w.Rec.add(Ev{K: "caps-", Peer: pc.RemoteAddress.String(), N: n})
+		p.w.Rec.add(Ev{K: "caps-", Peer: pc.RemoteAddress.String(), N: n, Caps: cp})
 		return out
 	}
 	for _, c := range p.ps.spec.Plugin.Caps {
